@@ -176,6 +176,16 @@ impl Peer {
             challenge.challenge.to_hex(),
             self.index,
         );
+        if self.static_peer_config.is_none() {
+            // on a connection we accepted, we are the one who issues the challenge. answering a
+            // challenge here would sign arbitrary data for whoever connects to us and would
+            // replace the challenge this peer still has to answer.
+            warn!(
+                "ignoring handshake challenge from peer : {:?} since the connection was not initiated by us",
+                self.index
+            );
+            return Ok(());
+        }
         let block_fetch_url;
         let is_lite;
         {
@@ -293,12 +303,24 @@ impl Peer {
             return Err(Error::from(ErrorKind::InvalidInput));
         }
 
-        if self.public_key.is_some() {
-            assert_eq!(
-                response.public_key,
-                self.public_key.unwrap(),
-                "This peer instance is to handle a peer with a different public key"
+        if response.public_key == wallet.public_key {
+            warn!(
+                "peer : {:?} answered the handshake with our own public key",
+                self.index
             );
+            self.mark_as_disconnected(current_time);
+            io_handler.disconnect_from_peer(self.index).await?;
+            return Err(Error::from(ErrorKind::InvalidInput));
+        }
+
+        if self.public_key.is_some() && response.public_key != self.public_key.unwrap() {
+            warn!(
+                "peer : {:?} answered the handshake with a different public key than before",
+                self.index
+            );
+            self.mark_as_disconnected(current_time);
+            io_handler.disconnect_from_peer(self.index).await?;
+            return Err(Error::from(ErrorKind::InvalidInput));
         }
 
         self.block_fetch_url = response.block_fetch_url;
